@@ -125,8 +125,9 @@ def Leaf.obsShape : Leaf → List Nat
   | .multiDiscrete nv => [nv.length]
   | .multiBinary n => [n]
 
-/-- the network's input shape for this space -/
+/-- the network's input shape for this space (a scalar Box is one input feature) -/
 def Leaf.netShape : Leaf → List Nat
+  | .box [] _ _ => [1]
   | .box p _ _ => p
   | .discrete n => [n]
   | .multiDiscrete nv => [nv.sum]
@@ -162,14 +163,22 @@ def prepMultiDiscrete (nvec : List Nat) (t : Tensor) : Except Err Tensor :=
 def prepMultiDiscreteLegacy (nvec : List Nat) (t : Tensor) : Except Err Tensor :=
   prepMultiDiscreteWith [nvec.sum] nvec t
 
-/-- `preprocess_observation` on a leaf space (the tensor is already `obs_to_tensor`'d: float) -/
-def preprocess (norm : Bool) : Leaf → Tensor → Except Err Tensor
+/-- `preprocess_observation` on a leaf space (the tensor is already `obs_to_tensor`'d: float).
+    `legacy = false` is the repaired code; `legacy = true` keeps the two analysed legacy behaviours:
+    a scalar (rank-0) Box gets no feature dimension although networks are built with
+    `flatdim = 1` input, and MultiDiscrete tests its first batch dimension against `Σ nvec`. -/
+def preprocessWith (legacy : Bool) (norm : Bool) : Leaf → Tensor → Except Err Tensor
   | .box p lo hi, t => do
     let t' ← if p.length = 3 ∧ norm = true then applyNorm p lo hi t else .ok t
-    maybeAddBatchDim t' p
+    if p = [] ∧ legacy = false then
+      maybeAddBatchDim { t' with shape := t'.shape ++ [1] } [1]     -- `unsqueeze(-1)`, space shape `(1,)`
+    else maybeAddBatchDim t' p
   | .discrete n, t => prepDiscrete n t
-  | .multiDiscrete nv, t => prepMultiDiscrete nv t
+  | .multiDiscrete nv, t => if legacy then prepMultiDiscreteLegacy nv t else prepMultiDiscrete nv t
   | .multiBinary n, t => maybeAddBatchDim t [n]
+
+def preprocess (norm : Bool) : Leaf → Tensor → Except Err Tensor := preprocessWith false norm
+def preprocessLegacy (norm : Bool) : Leaf → Tensor → Except Err Tensor := preprocessWith true norm
 
 /-- Dict / Tuple spaces (one level): member by member, first failure wins -/
 def preprocessAll (norm : Bool) : List (Leaf × Tensor) → Except Err (List Tensor)
@@ -223,8 +232,9 @@ end Obs
 
   sections are separated by `|`:
   * `prep <norm 0|1> | <space> | <shape…> | <data…>`          → `ok <shape…> | <data…>` / `reject`
-      space := `box p… ; lo… ; hi…` written as three sections `box p… | lo… | hi…`
-               (bounds: rationals or `inf` / `-inf`), `disc n`, `mdisc n…`, `mdisclegacy n…`, `mbin n`
+    `preplegacy …` the same with the two legacy behaviours (scalar Box, MultiDiscrete (step, env))
+      space := `box p… | lo… | hi…` (three sections; bounds: rationals or `inf` / `-inf`),
+               `disc n`, `mdisc n…`, `mbin n`
   * `batchdim | <shape…> | <space shape…>`                   → `ok <shape…>` / `reject`
   * `vect | <obs shape…> | <space shape…>`                   → `<n>`
   * `asm | <agent 0 data…> | <agent 1 data…> …`              → `<data…>`
@@ -270,22 +280,19 @@ def parseTensor? (shape data : List String) : Option Tensor :=
   | some s, some d => if d.length = numel s then some { shape := s, data := d } else none
   | _, _ => none
 
+def stepPrep (legacy : Bool) (norm : String) (rest : List (List String)) : String :=
+  if norm ≠ "0" ∧ norm ≠ "1" then "bad-op" else
+  match parseLeaf? rest with
+  | some (sp, [shape, data]) =>
+    match parseTensor? shape data with
+    | some t => showRes (preprocessWith legacy (norm = "1") sp t)
+    | none => "bad-op"
+  | _ => "bad-op"
+
 def step (s : IOState) (ws : List String) : IOState × String :=
   match splitBar ws with
-  | ["prep", norm] :: rest =>
-    if norm ≠ "0" ∧ norm ≠ "1" then (s, "bad-op") else
-    match rest with
-    | ("mdisclegacy" :: nv) :: [shape, data] =>
-      match parseNats? nv, parseTensor? shape data with
-      | some nv, some t => (s, showRes (prepMultiDiscreteLegacy nv t))
-      | _, _ => (s, "bad-op")
-    | _ =>
-      match parseLeaf? rest with
-      | some (sp, [shape, data]) =>
-        match parseTensor? shape data with
-        | some t => (s, showRes (preprocess (norm = "1") sp t))
-        | none => (s, "bad-op")
-      | _ => (s, "bad-op")
+  | ["prep", norm] :: rest => (s, stepPrep false norm rest)
+  | ["preplegacy", norm] :: rest => (s, stepPrep true norm rest)
   | [["batchdim"], shape, p] =>
     match parseNats? shape, parseNats? p with
     | some sh, some p =>
